@@ -1165,6 +1165,14 @@ func (fr *frame) findLocal(b *ssa.BasicBlock, name string) ssa.Value {
 			continue
 		}
 		for _, in := range blk.Instrs {
+			// a merge of two definitions of the variable (if/else before the loop) carries no DebugRef of its own:
+			// from there on the phi is the variable's value
+			if phi, isPhi := in.(*ssa.Phi); isPhi && phi.Comment == name {
+				if _, isVal := fr.vals[phi]; isVal {
+					best = phi
+				}
+				continue
+			}
 			if d, ok := in.(*ssa.DebugRef); ok && !d.IsAddr {
 				if id := d.Object(); id != nil && id.Name() == name {
 					if c, isC := d.X.(*ssa.Const); isC && c.Value == nil {
